@@ -168,3 +168,8 @@ package xslices
 //@   ensures forall k int {p[k]} :: 0 <= k && k < len(s) ==> 0 <= p[k] && p[k] < len(s) && s[k] == old(s[p[k]]) && q[p[k]] == k
 //@   ensures forall m int {q[m]} :: 0 <= m && m < len(s) ==> 0 <= q[m] && q[m] < len(s) && p[q[m]] == m
 //@   ensures forall k int {row(s)[k]} :: k < off(s) || k >= off(s) + len(s) ==> row(s)[k] == old(row(s)[k])
+
+//@ ext slices.Index(s, v) (r)
+//@   ispure
+//@   ensures -1 <= r && r < len(s) && (r >= 0 ==> s[r] == v)
+//@   ensures forall t int {s[t]} :: 0 <= t && t < len(s) && (r == -1 || t < r) ==> s[t] != v
